@@ -102,12 +102,13 @@ def S_to_bits(nb, canon, be=False):
         bits = AND(*[isbit(o) for o in outs])
         v = e.named_sum([(1 << i, o) for i, o in enumerate(outs)])
         if canon and n >= NB:
-            # canonical full-width decomposition, stated as: the bits represent an integer below p (unsigned
-            # bit-vector reading of the same bits, as in S_bits_cmp) that is congruent to x modulo p. For
-            # 0 <= x < p this is the same statement as `x = v` over the integers (a residue class has one
-            # representative below p); the bit-vector form lets the solver bit-blast the comparison
-            # instead of doing 255-bit linear arithmetic (the integer form does not finish in 600 s).
-            return AND(bits, f"(bvult {bv_of_bits(outs)} {bvlit(P, n)})", f"(= (mod (- {v} {A(I[0])}) {P}) 0)")
+            # canonical full-width decomposition, stated as two conjuncts: (A) the bits are a decomposition of
+            # x or of x + p (integer reading, what the non-canonical variant guarantees), (B) the integer the
+            # bits represent is below p (unsigned bit-vector reading of the same bits, as in S_bits_cmp).
+            # Together they say x = v: v < p excludes v = x + p. The single integer statement `x = v` does
+            # not finish in 600 s because the solver has to link the two readings; each conjunct takes
+            # seconds on its own, so they are proved one at a time (cut rule `prove_then_assume`).
+            return canonical_digits(e, I[0], outs, 2, P)
         if canon or n < NB:
             return AND(bits, eq(I[0], v))
         return AND(bits, OR(eq(I[0], v), eq(f"(+ {A(I[0])} {P})", v)))
@@ -121,6 +122,8 @@ def S_to_bytes(nb, be=False):
         if be:
             outs = outs[::-1]
         assert len(O) == n
+        if 256 ** n > P:
+            return canonical_digits(e, I[0], outs, 256, P)
         return AND(*[lt(o, 256) for o in outs], eq(I[0], e.named_sum([(256 ** i, o) for i, o in enumerate(outs)])))
     return spec
 
@@ -133,8 +136,15 @@ def S_from(n, base, be=False):
         dom = AND(*[lt(x, base) for x in ins])
         # value is the integer sum reduced mod P (definitional r with explicit quotient)
         r = e.fresh("sr", 0, P - 1)
-        q = e.fresh("sq", 0, (base ** n) // P + 1)
-        e.lines.append(f"(assert (=> {dom} (= {e.named_sum([(base ** i, x) for i, x in enumerate(ins)])} (+ {r} (* {P} {q})))))")
+        if base ** n > 4 * P:
+            # wide inputs: the weights base^i themselves exceed P. Ground identity base^i = c_i + P*m_i with
+            # c_i = base^i mod P (exact, computed here): sum base^i x_i = sum c_i x_i + P * sum m_i x_i, so the
+            # residue of the integer sum is the residue of sum c_i x_i, whose quotient is at most n*base.
+            q = e.fresh("sq", 0, n * base + 1)
+            e.lines.append(f"(assert (=> {dom} (= {e.named_sum([(pow(base, i, P), x) for i, x in enumerate(ins)])} (+ {r} (* {P} {q})))))")
+        else:
+            q = e.fresh("sq", 0, (base ** n) // P + 1)
+            e.lines.append(f"(assert (=> {dom} (= {e.named_sum([(base ** i, x) for i, x in enumerate(ins)])} (+ {r} (* {P} {q})))))")
         return AND(dom, eq(O[0], r))
     return spec
 
@@ -322,10 +332,11 @@ def family(tier, seed):
         x = rnd.randrange(1 << (8 * nb))
         E.append(entry("to_le_bytes", S_to_bytes(nb), [x], {"nb": nb}, alt=[[0], [(1 << (8 * nb)) - 1]]))
         E.append(entry("to_be_bytes", S_to_bytes(nb, be=True), [x], {"nb": nb}))
+    # full-width canonical byte decomposition (the boundary where wrap-around matters): both tiers
+    E.append(entry("to_le_bytes", S_to_bytes(None), [rf()], {"nb": None}, alt=[[0], [P - 1]]))
     if tier != "quick":
-        E.append(entry("to_le_bytes", S_to_bytes(None), [rf()], {"nb": None}, alt=[[0], [P - 1]]))
         E.append(entry("to_le_bytes", S_to_bytes(32), [rf()], {"nb": 32}, alt=[[0], [P - 1]]))
-    for n in ([1, 3, 8, 64, 200] if tier == "quick" else [1, 2, 3, 8, 9, 64, 128, 254, 255, 256, 300]):
+    for n in ([1, 3, 8, 64, 200] if tier == "quick" else [1, 2, 3, 8, 9, 64, 128, 254, 255, 256]):   # n = 300 does not finish in 600 s (listed outside)
         bits = [rnd.randrange(2) for _ in range(n)]
         E.append(entry("from_le_bits", S_from(n, 2), bits, {"n": n}, alt=[[1] * n, [0] * n]))
         E.append(entry("from_be_bits", S_from(n, 2, be=True), bits, {"n": n}))
@@ -403,7 +414,7 @@ def check(run):
         "specifications in /verif/specs/C04.py are written from the instruction-trait documentation",
         "MockProver's view of the circuit (gates, lookups, permutation, fixed columns) is what keygen commits to (C02/C09 territory)",
     ]
-    run.outside += ["completeness (existence of a witness for every admissible input) beyond the concrete honest runs listed per obligation",
+    run.outside += ["from_le_bits / from_be_bits with more than 256 input bits (n = 300 measured: > 600 s on both solvers)", "completeness (existence of a witness for every admissible input) beyond the concrete honest runs listed per obligation",
                     "VectorInstructions and MapGadget (see DESIGN)", "parameters outside the enumerated family"]
     run.bounds += [f"tier={t}: {len(ents)} (operation, parameter) shapes, k=10, NativeGadget over BLS12-381 scalar field, pow2range columns 1..4, max_bit_len 8/9"]
     run.notes.append("Engine C: for each operation the constraint system emitted by the real NativeGadget/NativeChip synthesis is extracted from MockProver and the implication Sys => Spec is decided for all advice/instance assignments by z3-new || cvc5.")
